@@ -82,6 +82,13 @@ def gen_cases(seed, salt, n, genfn):
 
 
 def generator_health(rep, results, accepted, rejected, min_frac=0.5):
+    # a generated program is valid GDL: the compiler may reject it (status 1), it may not die on it
+    for r in rejected:
+        if r["rc"] not in (0, 1):
+            d = save_case(rep, r, r["name"] + "-died")
+            rep.violation(r["name"] + "-died", {"case": r["name"], "problem": "the compiler ended with status %s on a generated program" % r["rc"],
+                                                "log": r["log"][-400:], "gdl": r["prog"].gdl()[:3000],
+                                                "rerun": "cd %s && grcompiler -q %s p.gdl in.ttf out.ttf" % (d, " ".join(getattr(r["prog"], "compile_opts", ())))})
     if len(accepted) < min_frac * len(results):
         rep.violation("generator", {
             "broken": "fewer than %d%% of generated programs were accepted; generator or compiler front-end changed" % int(min_frac * 100),
